@@ -44,6 +44,13 @@ pub fn selfcheck(ctx: &Ctx) -> i32 {
     };
     let base = ctx.verif_dir.join("sim").join("target").join("selfcheck");
     let mut bad = false;
+    match crate::gen::selftest() {
+        Ok(()) => println!("selfcheck generator: mini scale-info == real #[derive(TypeInfo)] on the mirrored definitions"),
+        Err(e) => {
+            eprintln!("HARNESS ERROR: {e}");
+            bad = true;
+        }
+    }
     for prop in ["C06", "C10", "C11", "C16"] {
         let a = run_child(prop, ctx.seed, 1, scale, &base.join(format!("{prop}-w1")));
         let b = run_child(prop, ctx.seed, 16, scale, &base.join(format!("{prop}-w16")));
